@@ -210,3 +210,60 @@ func cacheGenNoted(w *World, r *Report, nt *types.Named, owner, key string) {
 		r.ok("CACHE-GEN", k, "", itoa(len(sites))+" publication site(s): the count compared with was noted before the state was read")
 	}
 }
+
+// hookReplaceEvery is the "every" clause of HOOK-REPLACE (seed C15-15): the look-up of what is replaced is not skipped
+// for some kinds of facts.  Every success return of the add hook lies behind ScheduleEvent (the job is replaced) or
+// behind State.Get (what is stored under the id was looked at) — except on the edges on which the hook is told that
+// the location is being loaded (parameter `loading`) or has no cron (`cronner == nil`), where nothing is replaced.
+func hookReplaceEvery(w *World, r *Report, fn *ssa.Function, key string, passes func(ssa.Instruction) bool) {
+	isLoadingOrNoCron := func(v ssa.Value) bool {
+		v = resolveSpill(v)
+		if p, ok := v.(*ssa.Parameter); ok {
+			if b, ok := p.Type().Underlying().(*types.Basic); ok && b.Kind() == types.Bool {
+				return true
+			}
+		}
+		if fv, ok := v.(*ssa.FreeVar); ok {
+			return namedOf(fv.Type()) != nil && namedOf(fv.Type()).Obj().Name() == "Cronner"
+		}
+		if u, ok := v.(*ssa.UnOp); ok && u.Op == token.MUL {
+			if fv, ok := u.X.(*ssa.FreeVar); ok {
+				if pt, ok := fv.Type().(*types.Pointer); ok {
+					return namedOf(pt.Elem()) != nil && namedOf(pt.Elem()).Obj().Name() == "Cronner"
+				}
+			}
+		}
+		return false
+	}
+	ef := func(from *ssa.BasicBlock, succ int) bool {
+		if len(from.Instrs) == 0 {
+			return true
+		}
+		ifi, ok := from.Instrs[len(from.Instrs)-1].(*ssa.If)
+		if !ok {
+			return true
+		}
+		ct, ok := decodeIf(ifi)
+		if !ok || !isLoadingOrNoCron(ct.V) {
+			return true
+		}
+		// the edge on which `loading` is true / the cron is nil is not a path on which something is replaced
+		switch ct.TrueWhen {
+		case "true", "nil":
+			return succ != 0
+		case "false", "nonnil":
+			return succ != 1
+		}
+		return true
+	}
+	k := key + " every"
+	hit, path := reach(fn, nil, func(in ssa.Instruction) bool {
+		_, isRet := in.(*ssa.Return)
+		return isRet && isSuccessReturnPS(in)
+	}, passes, ef)
+	if hit != nil {
+		r.violation("HOOK-REPLACE", k, w.PosOf(hit), "the add hook can return success for a fact that is added to a live location without having scheduled a job for it and without having looked up what it replaces (State.Get): a scheduled rule overwritten by such a fact keeps its job", blockPathString(w, path)...)
+	} else {
+		r.ok("HOOK-REPLACE", k, w.Pos(fn.Pos()), "every success return for an addition to a live location lies behind ScheduleEvent or the look-up of what is replaced")
+	}
+}
